@@ -59,6 +59,15 @@ def permitted(flags, prefix, d):
 # ---------------------------------------------------------------------------- implementation harness
 NULL = ("0.0.0.0", 0)
 PREV = ("10.0.0.5", 4000)
+# source addresses that resemble the previous hop's textually without being it; op code 2^32 + index (the model sees an
+# address different from the hop's, which is what the strings are)
+LOOKALIKE = ["110.0.0.5", "210.0.0.5", "10.0.0.50", "10.0.0.51", "10.0.0.5.", " 10.0.0.5", "10.0.0.5 ", "::ffff:10.0.0.5",
+             "::ffff:a00:5", "010.0.0.5", "10.0.0.05", "10.0.0", "0.0.0.5", "5", "", "10.0.0.5:4000", "10.0.0.5%eth0"]
+
+
+def src_str(n):
+    return LOOKALIKE[n - 2 ** 32] if n >= 2 ** 32 else str(ipaddress.IPv4Address(n))
+
 
 
 def dest_to_py(d):
@@ -170,7 +179,7 @@ class Harness:
             cid = 77 if known else 78
             pl = self.DataPayload(cid, dest_to_py(d), NULL, data)
             packet = self.tc._prefix + bytes([pl.msg_id]) + self.tc.serializer.pack_serializable(pl)
-            self.tc.on_data((str(ipaddress.IPv4Address(src_ip)), 4000), packet, None)
+            self.tc.on_data((src_str(src_ip), 4000), packet, None)
         elif k == "created":
             # the create_transports task exists only once the socket has been enabled
             if self.sock.enabled and not self.gate.done():
@@ -290,7 +299,7 @@ def gen_ops(r, prefix, n):
     for _ in range(n):
         k = r.choices(["exit", "created", "resolved", "outside"], [6, 1, 2, 3])[0]
         if k == "exit":
-            ops.append(("exit", r.random() < 0.9, prev if r.random() < 0.6 else r.choice([prev + 1, 1, r.getrandbits(32)]),
+            ops.append(("exit", r.random() < 0.9, prev if r.random() < 0.6 else r.choice([prev + 1, 1, r.getrandbits(32), 2 ** 32 + r.randrange(len(LOOKALIKE))]),
                         gen_dest(r), gen_payload(r, prefix)))
         elif k == "created":
             ops.append(("created",))
@@ -455,6 +464,9 @@ def run(ctx):
             ops = [("exit", True, prev, ("v4", 9, 9), bytes([0x01, 0]) + bytes(18))] + \
                   [("exit", True, prev, ("v4", 100 + j, 9), bytes([0x11, j % 4]) + bytes([j]) * 18) for j in range(13)] + \
                   [("created",)] + ops
+        elif i % 10 == 1:   # the first exited packet comes from an address resembling the hop's
+            j = (i // 10) % len(LOOKALIKE)
+            ops = [("exit", True, 2 ** 32 + j, ("v4", 9, 9), bytes([0x01, 0]) + bytes(18)), ("created",)] + ops
         log, obs, per_op = loop.run_until_complete(run_impl(fl, prefix, ops))
         for op in ops:
             kinds[op[0]] = kinds.get(op[0], 0) + 1
@@ -469,7 +481,7 @@ def run(ctx):
                               {"kind": "hist", "flags": fl, "prefix": prefix.hex(), "ops": ops_json(ops)})
         for (op, en0, en1, lg) in per_op:
             if not en0 and en1 and not (op[0] == "exit" and op[2] == prev and op[1]):
-                ctx.violation("enable/not-prev-hop", "socket enabled by %r" % (op[:4],),
+                ctx.violation("enable/not-prev-hop", "socket enabled by %r from source address %r (previous hop %r)" % (op[:4], src_str(op[2]) if op[0] == "exit" else None, PREV[0]),
                               {"kind": "hist", "flags": fl, "prefix": prefix.hex(), "ops": ops_json(ops)})
             if not en1 and lg:
                 ctx.violation("emit/while-disabled", "emission while the socket is disabled",
